@@ -15,9 +15,10 @@ import fam_run as fr
 from vlib import Infra, load_known, read_ndjson, write_ndjson, pmap, NCPU
 
 ASSUME = [
-    "files and changes of the TLA+ universe are rendered by lib/prop_c09.py (calls in seven statement contexts, patterns with and without argument elision); results are abstracted by go/parser (harness op histobs: package name and called names in source order), i.e. compared as syntax, not bytes",
+    "files and changes of the TLA+ universe are rendered by lib/prop_c09.py (calls in seven statement contexts, patterns with and without argument elision); results are abstracted by go/parser (harness op histobs2: package name and, per statement, the nested call term with its literal / identifier / call arguments; the wrappers of the statement contexts are transparent), i.e. compared as syntax, not bytes",
     "a failing step is realised by a replacement that refers to a metavariable the '-' side never binds (Replace returns an error)",
-    "calls carry one or two integer literal arguments that the changes bind with expression metavariables, so every rewritten site has its own binding, also in code that an earlier change produced",
+    "calls carry one or two arguments (literals, the identifier x, nested calls up to three deep) that the changes bind with expression metavariables, also repeated ones, so every rewritten site has its own binding, also in code that an earlier change produced or rewrote inside a bound place",
+    "sequences in which a change meets an instance of its pattern inside another instance of it, and the hand-written sequences (FREE), are judged against the observed chain of single-change runs (file re-read in between) instead of the model's chain",
     "the `change` hook events (build tag verif) are emitted right after each Change.Match call in patchRunner.Apply",
 ]
 
@@ -28,6 +29,7 @@ CONSTANTS
   MaxLen = %(len)d
   Pkgs = {"p", "q"}
   Lib = "%(lib)s"
+  Nested = "1"
 INVARIANT InOrderEqualsChain
 INVARIANT FunctionalAgrees
 PROPERTY NoMatchNoOp
@@ -42,6 +44,7 @@ CONSTANTS
   MaxLen = %(len)d
   Pkgs = {"p", "q"}
   Lib = "0"
+  Nested = "1"
   OutFile = "%(out)s"
   PerClass = %(per)d
   NFiles = %(nf)d
@@ -55,6 +58,7 @@ CONSTANTS
   MaxLen = 3
   Pkgs = {"p", "q"}
   Lib = "0"
+  Nested = "1"
   TraceFile = "%(trace)s"
   OutFile = "%(out)s"
 INVARIANT Flush
@@ -71,6 +75,14 @@ def q(l):
     return ", ".join('"%s"' % x for x in l)
 
 
+def term_text(t):
+    if not t["args"]:
+        if t["f"] == "lit":
+            return "x" if t["n"] == 0 else str(t["n"])
+        return t["f"][3:] if t["f"].startswith("id:") else t["f"] + "()"
+    return "%s(%s)" % (t["f"], ", ".join(term_text(a) for a in t["args"]))
+
+
 def render_file(sc, rng):
     stmt_rules = any(r["t"] == "sren" for r in sc["rules"])
     out = ["// Package doc.\npackage %s\n\nfunc f() {\n" % sc["pkg"]]
@@ -80,7 +92,7 @@ def render_file(sc, rng):
         ind = "\t\t"
     out.append(ind + "first(8)\n")
     for c in sc["body"]:
-        call = "%s(%s)" % (c["f"], ", ".join("x" if a == 0 else str(a) for a in c["args"]))
+        call = term_text(c)
         ctxs = ["\tdefer %s\n"] if stmt_rules else CONTEXTS
         out.append(ind[1:] + rng.choice(ctxs) % call)
         if rng.random() < 0.3:
@@ -101,6 +113,8 @@ def render_change(r, k, dots):
     out = ["@ c%d @" % k]
     if r["t"] == "split":
         out.append("var x, y expression")
+    elif r["t"] == "dup":
+        out.append("var y expression")
     elif r["t"] == "fail":
         out += ["var x expression", "var y expression"]
     elif r["t"] == "renlit":
@@ -116,6 +130,10 @@ def render_change(r, k, dots):
         out += ["-%s(x)" % r["from"], "+%s(y)" % r["from"]]
     elif r["t"] == "split":
         out += ["-%s(x, y)" % r["from"], "+pair(%s(x), %s(y))" % (r["to"], r["to"])]
+    elif r["t"] == "dup":
+        out += ["-%s(y, y)" % r["from"], "+%s(y)" % r["to"]]
+    elif r["t"] == "lit2":
+        out += ["-%s(x, 1)" % r["from"], "+%s(x)" % r["to"]]
     elif r["t"] == "sren":
         out += ["-defer %s(x)" % r["from"], "+defer %s(x)" % r["to"]]
     else:
@@ -156,7 +174,9 @@ def run(ctx):
     quick = ctx.tier == "quick"
     known = load_known("C09")
     atoms = ["a", "b"]
-    n, ln = (2, 2) if quick else (2, 3)      # (3 changes x 2 calls: 68 M initial states, 20 min per loop form - measured; not used)
+    # measured: 2 changes x 1 statement (calls of <=2 leaves or of one nested call): 0.23 M initial states; x 2 statements: 3.4 M;
+    # 3 changes x 2 statements: 68 M initial states already for flat calls, 20 min per loop form - not used
+    n, ln = (2, 1) if quick else (2, 2)
     states = trans = 0
     for lib in ("0", "1"):
         r = ctx.tlc("History", CFG_MC % dict(atoms=q(atoms), n=n, len=ln, lib=lib), "mc-history-lib" + lib, workers=NCPU, timeout=3000)
@@ -252,12 +272,12 @@ def execute(ctx, scs):
     obsreq = []
     for m in metas:
         sid = m["id"]
-        obsreq.append(dict(id=sid + "|in", op="histobs", src=m["src"]))
+        obsreq.append(dict(id=sid + "|in", op="histobs2", src=m["src"]))
         for route in ("one", "each", "list", "stdin", "mixed", "same"):
-            obsreq.append(dict(id="%s|%s" % (sid, route), op="histobs", src=recs["%s|%s" % (sid, route)]["content"].get(TARGET, "")))
+            obsreq.append(dict(id="%s|%s" % (sid, route), op="histobs2", src=recs["%s|%s" % (sid, route)]["content"].get(TARGET, "")))
         a = apires[sid + "|api"]
-        obsreq.append(dict(id=sid + "|api", op="histobs", src=a["out"] if not a["err"] else m["src"]))
-        obsreq.append(dict(id=sid + "|chain", op="histobs", src=cur[sid]))
+        obsreq.append(dict(id=sid + "|api", op="histobs2", src=a["out"] if not a["err"] else m["src"]))
+        obsreq.append(dict(id=sid + "|chain", op="histobs2", src=cur[sid]))
     inp, outp = ctx.path("c09", "obs.in.ndjson"), ctx.path("c09", "obs.out.ndjson")
     write_ndjson(inp, obsreq)
     ctx.run_vh(["api", "-in", inp, "-out", outp], timeout=3000)
@@ -269,7 +289,7 @@ def execute(ctx, scs):
         if o["err"]:
             return dict(pkg="<unparseable>", body=[])
         j = json.loads(o["out"])
-        return dict(pkg=j["pkg"], body=[dict(f=c["f"], args=c["args"]) for c in j["calls"] if every or c["f"] in names])
+        return dict(pkg=j["pkg"], body=j["body"])
 
     lines = []
     for m in metas:
